@@ -93,6 +93,8 @@ def dt_tag(d):
 
 
 def scalar_tag(v):
+    if hasattr(v, '__vf_scalar__') and not isinstance(v, ndarray):
+        v = v.__vf_scalar__()
     if isinstance(v, (bool, SB, _np.bool_)):
         return 'bool'
     if isinstance(v, (int, SI, BV, _np.integer)):
@@ -115,6 +117,8 @@ def cast(v, tag):
             raise ValueError('setting an array element with a sequence.')
     if isinstance(v, _np.generic):
         v = v.item()
+    if hasattr(v, '__vf_scalar__'):
+        v = v.__vf_scalar__()
     if isinstance(v, str) and tag != 'str':
         s = v.strip()
         if tag == 'complex':
@@ -644,6 +648,8 @@ def _operand(x):
         x = x.item()
     if x is None:
         raise TypeError("unsupported operand type(s): 'NoneType'")
+    if hasattr(x, '__vf_scalar__'):
+        x = x.__vf_scalar__()
     return x, scalar_tag(x), False
 
 
